@@ -435,10 +435,10 @@ struct Runner {
 				printf("b %d", i);
 				size_t guard = 0;
 				slab_frame *first = b.partial_tree.first();
-				if(first != b.head_slb) vh::oracle("bookkeeping", "bucket %d: head_slb is not the first partial slab", i);
 				for(slab_frame *s = first; s && guard < 100000; s = Pool::partial_tree_type::successor(s), guard++)
 					printf(" %llu", (ull)g.v((uintptr_t)s));
 				printf("\n");
+				if(first != b.head_slb) vh::oracle("bookkeeping", "bucket %d: head_slb is not the first partial slab", i);
 			}
 		}
 		for(uintptr_t f : slab_frames) {
